@@ -620,14 +620,19 @@ impl ArrayImpl {
     }
 
     /// Returns the sum of values.
+    ///
+    /// NULL items are skipped (their raw slots may hold arbitrary values); the sum of no values is NULL.
     pub fn sum(&self) -> DataValue {
+        if self.get_valid_bitmap().count_ones() == 0 {
+            return DataValue::Null;
+        }
         match self {
-            Self::Int16(a) => DataValue::Int16(a.raw_iter().sum()),
-            Self::Int32(a) => DataValue::Int32(a.raw_iter().sum()),
-            Self::Int64(a) => DataValue::Int64(a.raw_iter().sum()),
-            Self::Float64(a) => DataValue::Float64(a.raw_iter().sum()),
-            Self::Decimal(a) => DataValue::Decimal(a.raw_iter().sum()),
-            Self::Interval(a) => DataValue::Interval(a.raw_iter().sum()),
+            Self::Int16(a) => DataValue::Int16(a.iter().flatten().sum()),
+            Self::Int32(a) => DataValue::Int32(a.iter().flatten().sum()),
+            Self::Int64(a) => DataValue::Int64(a.iter().flatten().sum()),
+            Self::Float64(a) => DataValue::Float64(a.iter().flatten().sum()),
+            Self::Decimal(a) => DataValue::Decimal(a.iter().flatten().sum()),
+            Self::Interval(a) => DataValue::Interval(a.iter().flatten().sum()),
             _ => panic!("can not sum array"),
         }
     }
